@@ -45,6 +45,14 @@ sh(f"git apply out/{var}/patch.diff")
 rc_b, out_b = sh("go build ./... 2>&1 | tail -5")
 rc_t, out_t = sh("go test -count=1 " + " ".join(allp) + " 2>&1 | grep -v 'no test files' | tail -25", timeout=3600)
 tests_ok = "FAIL" not in out_t and "ok" in out_t
+if not tests_ok:
+    # the repository has wall-clock tests (client TestAddChainRetries) that fail under machine load: re-run the failing packages alone, once
+    failing = sorted(set(re.findall(r"^FAIL\s+github.com/google/certificate-transparency-go(\S*)", out_t, re.M)))
+    if failing:
+        rc_t2, out_t2 = sh("go test -count=1 -p 1 " + " ".join("." + f if f else "." for f in failing) + " 2>&1 | grep -v 'no test files' | tail -25", timeout=3600)
+        if "FAIL" not in out_t2 and "ok" in out_t2:
+            tests_ok = True
+            res["existing_tests_note"] = "first run failed in %s under load; passed when re-run alone" % failing
 res["existing_tests_cmd"] = "go test -count=1 " + " ".join(allp)
 res["existing_tests_pass_with_change"] = tests_ok
 shutil.copy(f"{O}/{demo_src[0]}", f"{W}/{dest}")
